@@ -405,6 +405,10 @@ class WOwnership(Monitor):
         if res.status in ('SuccessMessage', 'Merged'):
             for pid, info in w.prs.items():
                 f = info['src']
+                if info.get('shared_commits'):
+                    # the same commits were proposed by two PRs: "merged"
+                    # cannot be told from the refs for this one
+                    continue
                 if f in res.heads1 and info['dst'] in res.heads1 and \
                         w.is_ancestor(res.heads1[f],
                                       res.heads1[info['dst']]):
